@@ -1675,7 +1675,12 @@ class Parallel(Logger):
         # remaining jobs.
         self._iterating = False
         if self.dispatch_one_batch(iterator):
-            self._iterating = self._original_iterator is not None
+            # Read and write under the lock: the callback of the first batch
+            # can exhaust the input (and clear both attributes, holding the
+            # lock) between the two, its final False would be overwritten and
+            # the retrieval loop would never end.
+            with self._lock:
+                self._iterating = self._original_iterator is not None
 
         while self.dispatch_one_batch(iterator):
             pass
